@@ -244,3 +244,28 @@ Theorem C17_declared_entries_of_user_features : forall groups filters us e,
    exists u d, In u us /\ declared_type groups u = Some (Some d) /\ e = user_entry u (Some d)).
 Proof. exact declared_entries_undeclared_filters. Qed.
 Print Assumptions C17_declared_entries_of_user_features.
+
+(* a request that meets no prepare-time error (option conflict / declaration vs group rule, in the order the engine meets them)
+   flattens to user features that all have a resulting declaration *)
+Theorem C17_prepare_ok_flatten : forall groups api rs,
+  api_conflict api rs = false -> prepare_error groups api rs = None ->
+  exists us, flatten api rs = Some us /\ existsb (undeclarable groups) us = false.
+Proof. exact prepare_ok_flatten. Qed.
+Print Assumptions C17_prepare_ok_flatten.
+
+(* known-defect domain (C17-two-declared-types-on-a-joined-root-rejected, outside this model: the planner refuses the request):
+   the domain predicate is satisfiable and the statement demands success there *)
+Example C17_kf_split_domain_witness :
+  let groups := [ {| g_cols := ["uid"%string; "a"%string; "b"%string]; g_index := [["uid"%string]]; g_rule := [] |};
+                  {| g_cols := ["uid"%string; "c"%string]; g_index := [["uid"%string]]; g_rule := [] |};
+                  {| g_cols := ["score"%string]; g_index := []; g_rule := [] |} ] in
+  let rs := [ {| r_group := 2; r_name := "score"%string; r_decl := Some DOUBLE; r_own := SAbsent;
+                 r_deps := [ {| d_group := 0; d_name := "a"%string; d_decl := Some INT64; d_own := SAbsent |};
+                             {| d_group := 0; d_name := "b"%string; d_decl := Some STRING; d_own := SAbsent |};
+                             {| d_group := 1; d_name := "c"%string; d_decl := Some DOUBLE; d_own := SAbsent |} ] |} ] in
+  let cols := [ [("uid"%string, Some STRING); ("a"%string, Some INT64); ("b"%string, Some STRING)];
+                [("uid"%string, Some STRING); ("c"%string, Some DOUBLE)]; [("score"%string, Some DOUBLE)] ] in
+  (match flatten false rs with Some us => kf_split_joined_root groups wit_links us | None => false end) = true
+  /\ spec_request strict_spec lenient_spec groups [] false rs cols = QOk
+  /\ (match flatten false wit_rs_one_type with Some us => kf_split_joined_root groups wit_links us | None => true end) = false.
+Proof. vm_compute; repeat split. Qed.
